@@ -59,6 +59,12 @@ ACCEPTS = ['text/plain', 'application/xml, text/html;q=0.5',
            'application/*']
 
 
+CONTENT_TYPES = ['text/plain', 'application/xml',
+                 'application/x-www-form-urlencoded',
+                 'application/json; charset=utf-8',
+                 'application/json;charset=UTF-8']
+
+
 class Gen(object):
 
     def __init__(self, rng, n_providers=6, n_consumers=6, mix=None,
@@ -211,6 +217,15 @@ class Gen(object):
                         # 404 and 406 wins is nobody's contract
                         acc = 'application/json'
                     op['h'] = {'accept': acc}
+                elif self.accept_variants and op.get('b') is not None and \
+                        not op.get('defect') and self.chance(0.03):
+                    # ... and what it says it sends: a body that is not
+                    # declared as JSON is refused (415) before it is read
+                    ct = self.pick(CONTENT_TYPES)
+                    if not ct.startswith('application/json') and \
+                            m.clone().apply(dict(op)).status >= 400:
+                        ct = 'application/json'
+                    op['h'] = {'content-type': ct}
                 return op
         return self.g_rp_create(m) or self.g_read(m)
 
